@@ -95,6 +95,14 @@ func c19Elem(row interface{}) interface{} {
 		x := e.(map[string]interface{})
 		return map[string]interface{}{"gid": x["gid"], "label": x["label"], "from": x["from"], "to": x["to"], "data": x["data"]}
 	}
+	// a row without a current element (a *Null move that found nothing): the aggregations read it as
+	// the empty document (every field missing); it still is a row — count counts it, type says UNKNOWN
+	if _, ok := m["v"]; ok {
+		return map[string]interface{}{"gid": "", "label": "", "from": "", "to": "", "data": Tag(map[string]interface{}{})}
+	}
+	if _, ok := m["e"]; ok {
+		return map[string]interface{}{"gid": "", "label": "", "from": "", "to": "", "data": Tag(map[string]interface{}{})}
+	}
 	return map[string]interface{}{"other": true}
 }
 
@@ -353,11 +361,17 @@ func c19CaseSized(r *Run, size int) map[string]interface{} {
 		}
 	}
 	var pre []interface{}
-	sel := rng.Intn(8)
+	sel := rng.Intn(11)
 	if size >= 0 {
 		sel = 7 // all vertices
 	}
 	switch sel {
+	case 8: // rows without a current element among the input (vertices without a matching edge)
+		pre = []interface{}{map[string]interface{}{"v": []interface{}{}}, map[string]interface{}{"outNull": []interface{}{"r"}}}
+	case 9:
+		pre = []interface{}{map[string]interface{}{"v": []interface{}{}}, map[string]interface{}{"inENull": []interface{}{"nolabel"}}}
+	case 10:
+		pre = []interface{}{map[string]interface{}{"v": []interface{}{}}, map[string]interface{}{"outENull": []interface{}{}}}
 	case 0:
 		pre = []interface{}{map[string]interface{}{"v": []interface{}{}}, map[string]interface{}{"hasLabel": []interface{}{"A"}}}
 	case 1:
